@@ -364,6 +364,64 @@ def witnesses_views(run, drv):
         run.oracle_ok("witness")
 
 
+def witnesses_memmap_api(run, drv, scratch):
+    """6. every way into a memory-mapped (hence locked) tensordict must build the lock graph (`memmap_establishes`): memmap_ / memmap / memmap_like
+    x sequential / threaded / threaded + return_early (result through `TensorDictFuture.result()`).  Oracle: a nested tensordict refuses `unlock_()`."""
+    import torch
+    from tensordict import TensorDict
+    model = parse_sx(drv.ask("(c05.run (ctor () ((c 1 0)) false) (ctor ((b 0)) ((a 2 0)) false) (memmap 1) (unlock 0))"))
+    m = [model[2][1][1][1] == "L", model[2][1][0][1] == "L", list(model[2][1][0][3]) == [1], model[3][0] == "ok"]
+    n = 0
+    for api in ("memmap_", "memmap", "memmap_like"):
+        for kw in ({}, {"num_threads": 2}, {"num_threads": 2, "return_early": True}):
+            n += 1
+            td = TensorDict({"a": torch.zeros(3), "b": TensorDict({"c": torch.ones(3)}, [3])}, [3])
+            out = getattr(td, api)(str(scratch / f"wmm{n}"), **kw)
+            if hasattr(out, "result") and not hasattr(out, "keys"):
+                out = out.result()
+            nested = out.get("b")
+            ps = [w() is out for w in nested._lock_parents_weakrefs if w() is not None]
+            try:
+                nested.unlock_()
+                alone = True
+            except RuntimeError:
+                alone = False
+            tag = f"{api}({', '.join(f'{k}={v}' for k, v in kw.items())})"
+            run.corr("witness", f"memmap-api:{tag}", [bool(out.is_locked), bool(nested.is_locked) or alone, ps == [True], alone], m)
+            if alone:
+                run.oracle_fail("witness", {"program": f"td = TensorDict({{'a': …, 'b': {{'c': …}}}}, [3]); out = td.{tag}" + (".result()" if kw.get("return_early") else "") + "; out['b'].unlock_() -> accepted; out['b'].set('new', …) then changes the locked memory-mapped tensordict"},
+                                "a tensordict nested in a memory-mapped (locked) tensordict was unlocked on its own: it has no lock parent", f"memmap-nested-unlock:{tag}")
+            else:
+                run.oracle_ok("witness")
+
+
+def witnesses_stack_through_holder(run, drv):
+    """7. a lazy stack locked *through a holder* must list itself among the lock parents of its members (it holds them), so that they stay
+    locked when the holder is gone: lock via holder, drop the holder + gc, member unlock."""
+    import gc
+    import torch
+    from tensordict import LazyStackedTensorDict, TensorDict
+    m0, m1 = TensorDict({"a": torch.zeros(2)}, [2]), TensorDict({"a": torch.zeros(2)}, [2])
+    S = LazyStackedTensorDict(m0, m1, stack_dim=0)
+    root = TensorDict({"stack": S}, [2])
+    root.lock_()
+    del root
+    gc.collect()
+    still = [bool(S.is_locked), S._is_locked]
+    try:
+        m0.unlock_()
+        alone = True
+    except RuntimeError:
+        alone = False
+    model = parse_sx(drv.ask("(c05.run (ctor () ((a 1 0)) false) (ctor () ((a 2 0)) false) (lazy (0 1) false) (ctor ((stack 2)) () true) (gc 3) (unlock 0))"))
+    run.corr("witness", "stack-through-holder", [still[0], still[1] is True, alone], [model[4][1][2][1] == "L", model[4][1][2][2] == "t", model[5][0] == "ok"])
+    if alone and S._is_locked:
+        run.oracle_fail("witness", {"program": "S = LazyStackedTensorDict(m0, m1); root = TensorDict({'stack': S}); root.lock_(); del root; gc.collect(); m0.unlock_() -> accepted (S still locked)"},
+                        "a member of a lazy stack that was locked through a holder was unlocked on its own once the holder was collected: the stack is not among its lock parents", "stack-through-holder-member-unlock")
+    else:
+        run.oracle_ok("witness")
+
+
 def main():
     run = Run("C05")
     run.rule = ("histories: random event histories over TensorDict / lazy-stack / tensorclass / TensorDictParams-wrapper nodes (constructors over existing nodes incl. shared nodes, lock_/unlock_, context managers, "
@@ -400,6 +458,8 @@ def main():
         witnesses_params(run, drv)
         witnesses_params_pinned(run)
         witnesses_views(run, drv)
+        witnesses_memmap_api(run, drv, scratch)
+        witnesses_stack_through_holder(run, drv)
         if not run.replay:
             histories(run, drv, 4000 if thorough else 300, 32 if thorough else 26, scratch)
         import c05_sweep_run
